@@ -1,13 +1,16 @@
 #!/bin/bash
-# usage: tools_mutant.sh <patch> <check-id> [tier]   -- apply patch to /repo, run check, revert
+# usage: tools_mutant.sh <patch> <check-id> [tier]
+# applies the patch to a scratch worktree of /repo's HEAD (outside /repo and /verif), runs the check against it
+# (VERIF_REPO), and resets the worktree.  /repo itself is not touched, so long runs against /repo are not disturbed.
 set -u
 patch=$1; id=$2; tier=${3:-quick}
-cd /repo || exit 3
-git diff --quiet || { echo "/repo dirty"; exit 3; }
-git apply "$patch" || { echo "patch does not apply"; exit 3; }
-/venv/bin/python /verif/run_check.py "$id" --tier "$tier" > /tmp/mutant_out.$$ 2>&1
+WT=/tmp/mutwt_$$
+git -C /repo worktree add -q --detach $WT HEAD || exit 3
+cd $WT || exit 3
+if ! git apply "$patch"; then echo "patch does not apply"; cd /; git -C /repo worktree remove --force $WT; exit 3; fi
+VERIF_REPO=$WT /venv/bin/python /verif/run_check.py "$id" --tier "$tier" > /tmp/mutant_out.$$ 2>&1
 rc=$?
-git checkout -- . 
 grep -E "VIOLATION|KNOWN-FINDING|SELF-CHECK|executions=" /tmp/mutant_out.$$ | head -8
 rm -f /tmp/mutant_out.$$
+cd /; git -C /repo worktree remove --force $WT
 echo "exit=$rc"
